@@ -13,6 +13,7 @@ import shlex
 import subprocess
 import threading
 import sys
+from . import refnames
 import time
 
 VERIF = os.path.dirname(os.path.dirname(os.path.abspath(__file__)))
@@ -206,6 +207,8 @@ class Facts:
                 o["unit"] = unit
                 n += 1
                 if e == "fn":
+                    if o.get("body") or o.get("inits"):
+                        refnames.normalise(o)
                     self.fns.append(o)
                 elif e == "rec":
                     # keep the definition with most fields (there is only one per q unless templates/specs)
@@ -424,6 +427,8 @@ class Check:
         os.makedirs(rdir, exist_ok=True)
         for old in glob.glob(os.path.join(rdir, "*.json")):
             os.remove(old)
+        if os.environ.get("VERIF_REFNAMES_RECORD"):
+            refnames.flush_record()
         if os.environ.get("VERIF_ANCHORS"):
             with open(os.environ["VERIF_ANCHORS"], "w") as fh:
                 json.dump(dict(touched=sorted(TOUCHED, key=str), instance_functions=sorted(TOUCHED_Q)), fh)
